@@ -63,6 +63,9 @@ for base, fn, n, tr in ((16, "tokens_hex_string_to_int", 6, "quick"), (8, "token
                         defines=["BASE=%d" % base, "LITLEN=%d" % n], unwind=n + 3, checks=["--bounds-check", "--pointer-check"], timeout=1500, tier=tr,
                         bounded="digit strings of at most %d characters (all characters symbolic)" % n))
 
+# the tokenizer contract carries "numeric literals are re-printed as signed decimals" (C04.lit obligation in the C16 harness)
+from shared_groups import tokens_get_group
+GROUPS.append(tokens_get_group("thorough"))
 LEVEL = "proof"
 TRUSTED = ["+ - * on int64_t wrap (two's complement) in the shipped binary as they do in CBMC's bit-vector semantics"]
 MANIFEST = {
